@@ -360,3 +360,199 @@ func checkInputBlobNotWritten(c *Ctx, res *report.Result, rule string) {
 	}
 	res.Check(bad == "", rule, "translateOneDataBlob never writes into the blob it was given", fnPos(c.Prog, f), "returns the input untouched or the serializer's own blob", bad+": the re-serialized events are proto3, so a blob that keeps its old encoding label (JSON) and receives the new bytes cannot be decoded by the receiving cluster - the renamed keys, the mapped names and everything else in it are lost")
 }
+
+// checkNoWaitForReady (O11.9): when no mux session is left the client reports Unavailable at once: the dial options
+// do not switch the module's calls to wait-for-ready. With grpc.WaitForReady(true) as a default call option a call
+// made while the session set is empty waits in the picker until the caller's deadline - or for ever.
+func checkNoWaitForReady(c *Ctx, res *report.Result, rule string) {
+	n := 0
+	for _, f := range c.Prog.RepoFuncs() {
+		if !isShippedFunc(f) {
+			continue
+		}
+		for _, call := range flow.Calls(f) {
+			if !flow.IsCallTo(call.Common(), "google.golang.org/grpc", "", "WaitForReady") {
+				continue
+			}
+			n++
+			v, isC := flow.ConstBool(call.Common().Args[0])
+			res.Check(isC && !v, rule, shortFn(f)+": calls fail fast when no session is available", instrPos(c.Prog, call), "WaitForReady(false)", "grpc.WaitForReady is switched on (or set from a variable): with an empty session set RPCs no longer return Unavailable, they wait for their deadline")
+		}
+	}
+	if n == 0 {
+		res.Hold(rule, "no call option of the module asks gRPC to wait for a ready connection", "", "no grpc.WaitForReady call in the shipped code: gRPC's default (fail fast) applies")
+	}
+}
+
+// checkTranslatedBlobProvenance (O12.10): what translateOneDataBlob returns after the visitor ran is the blob it was
+// given or the serialization of the very events the visitor walked - nothing else (not a blob produced before the
+// visitor ran, e.g. by the UTF-8 repair). Otherwise the names the visitor mapped are in the events and the bytes
+// that leave are older than they.
+func checkTranslatedBlobProvenance(c *Ctx, res *report.Result, rule string) {
+	f := resolve(c, res, rule, anchor{"interceptor", "", "translateOneDataBlob"})
+	if f == nil {
+		return
+	}
+	var visitorCall *ssa.Call
+	var blobParam *ssa.Parameter
+	for _, p := range f.Params {
+		if strings.HasSuffix(p.Type().String(), "DataBlob") {
+			blobParam = p
+		}
+	}
+	for _, call := range flow.Calls(f) {
+		if cv, ok := call.(*ssa.Call); ok && flow.StaticCallee(&cv.Call) == nil && !cv.Call.IsInvoke() {
+			if _, isBuiltin := cv.Call.Value.(*ssa.Builtin); !isBuiltin && len(cv.Call.Args) == 3 {
+				visitorCall = cv
+			}
+		}
+	}
+	if visitorCall == nil || blobParam == nil {
+		res.Undec(rule, "translateOneDataBlob: visitor call", fnPos(c.Prog, f), "the call of the visitor parameter (or the blob parameter) was not found")
+		return
+	}
+	events := visitorCall.Call.Args[1]
+	okSer := func(v ssa.Value) bool {
+		ex, ok := v.(*ssa.Extract)
+		if !ok || ex.Index != 0 {
+			return false
+		}
+		call, ok := ex.Tuple.(*ssa.Call)
+		if !ok {
+			return false
+		}
+		if !call.Call.IsInvoke() || call.Call.Method.Name() != "SerializeEvents" || len(call.Call.Args) < 1 {
+			return false
+		}
+		return flow.SameValue(call.Call.Args[0], events) || flow.ResolveLoad(call.Call.Args[0]) == flow.ResolveLoad(events)
+	}
+	bad := ""
+	var alts func(v ssa.Value, d int)
+	seen := map[ssa.Value]bool{}
+	alts = func(v ssa.Value, d int) {
+		v = flow.ResolveLoad(v)
+		if d > 6 || seen[v] {
+			return
+		}
+		seen[v] = true
+		switch x := v.(type) {
+		case *ssa.Phi:
+			for _, e := range x.Edges {
+				alts(e, d+1)
+			}
+			return
+		case *ssa.Parameter:
+			if x == blobParam {
+				return
+			}
+		}
+		if okSer(v) {
+			return
+		}
+		bad = flow.Describe(v)
+	}
+	n := 0
+	for _, b := range f.Blocks {
+		for _, ins := range b.Instrs {
+			ret, ok := ins.(*ssa.Return)
+			if !ok || len(ret.Results) == 0 {
+				continue
+			}
+			if !flow.ReachBlock(visitorCall.Block(), b, nil) {
+				continue
+			}
+			n++
+			alts(ret.Results[0], 0)
+		}
+	}
+	if n == 0 {
+		res.Undec(rule, "translateOneDataBlob: returns after the visitor", fnPos(c.Prog, f), "none found")
+		return
+	}
+	res.Check(bad == "", rule, "translateOneDataBlob returns its input or the serialization of the events the visitor walked", instrPos(c.Prog, visitorCall), "blob parameter, or SerializeEvents(events) of the visitor's own events", "after the visitor ran the function can return "+bad+": a blob that was produced before the visitor mapped the names (the repaired-but-untranslated blob) leaves the proxy, with `matched` reported and no error")
+}
+
+// checkEveryBlobTranslated (O16.1e / O12.11): translateDataBlobs hands every element of its input to
+// translateOneDataBlob: no path through the loop body goes on to the next element without the call (an element
+// skipped by its encoding label, its index or its size is neither translated nor access-checked).
+func checkEveryBlobTranslated(c *Ctx, res *report.Result, rule string) {
+	f := resolve(c, res, rule, anchor{"interceptor", "", "translateDataBlobs"})
+	if f == nil {
+		return
+	}
+	var call ssa.Instruction
+	for _, cl := range flow.Calls(f) {
+		if sc := flow.StaticCallee(cl.Common()); sc != nil && sc.Name() == "translateOneDataBlob" {
+			call = cl
+		}
+	}
+	construct := "translateDataBlobs passes every element to translateOneDataBlob"
+	if call == nil {
+		res.Viol(rule, construct, fnPos(c.Prog, f), "no call of translateOneDataBlob: the blobs of a repeated field are never looked into")
+		return
+	}
+	// the loop header: nearest dominating block with a back edge from the call's region
+	var head *ssa.BasicBlock
+	for b := call.Block(); b != nil && head == nil; b = b.Idom() {
+		for _, p := range b.Preds {
+			if b.Dominates(p) && flow.ReachBlock(call.Block(), p, nil) {
+				head = b
+			}
+		}
+	}
+	if head == nil {
+		res.Undec(rule, construct, instrPos(c.Prog, call), "the call is not inside a loop")
+		return
+	}
+	body := head.Succs[0]
+	r := flow.FindPath(flow.Point{Block: body}, func(x ssa.Instruction) bool { return x.Block() == head }, func(x ssa.Instruction) bool { return x == call }, nil)
+	res.Check(!r.Found, rule, construct, instrPos(c.Prog, call), "no way round the call inside the loop", "an element can be skipped (path "+flow.BlockPath(r.Via)+"): a blob that is not looked into keeps the names it carries - untranslated, and unchecked against the namespace allow-list")
+}
+
+// checkRepairGate (O17.10 / O18.8): the codec repairs on every invalid-UTF-8 error, whatever the message: from the
+// true side of IsInvalidUTF8Error(err) every path of RepairUTF8Codec.Unmarshal reaches convertAndRepairInvalidUTF8
+// (no size, type or count condition in between).
+func checkRepairGate(c *Ctx, res *report.Result, rule string) {
+	f := resolve(c, res, rule, anchor{"proto/compat", "*RepairUTF8Codec", "Unmarshal"})
+	if f == nil {
+		return
+	}
+	var gate *ssa.Call
+	for _, call := range flow.Calls(f) {
+		if sc := flow.StaticCallee(call.Common()); sc != nil && sc.Name() == "IsInvalidUTF8Error" {
+			gate, _ = call.(*ssa.Call)
+		}
+	}
+	isRepair := func(x ssa.Instruction) bool {
+		call, ok := x.(ssa.CallInstruction)
+		if !ok {
+			return false
+		}
+		sc := flow.StaticCallee(call.Common())
+		return sc != nil && sc.Name() == "convertAndRepairInvalidUTF8"
+	}
+	construct := "RepairUTF8Codec.Unmarshal repairs on every invalid-UTF-8 error"
+	if gate == nil {
+		res.Undec(rule, construct, fnPos(c.Prog, f), "no IsInvalidUTF8Error call")
+		return
+	}
+	// the true side of the gate
+	bad := ""
+	found := false
+	for _, b := range f.Blocks {
+		iff := lastIfOf(b)
+		if iff == nil || iff.Cond != ssa.Value(gate) {
+			continue
+		}
+		found = true
+		r := flow.FindPath(flow.Point{Block: b.Succs[0]}, flow.IsReturn, isRepair, nil)
+		if r.Found {
+			bad = "path " + flow.BlockPath(r.Via)
+		}
+	}
+	if !found {
+		res.Undec(rule, construct, instrPos(c.Prog, gate), "the result of IsInvalidUTF8Error is not tested by an if of its own (it is combined with another condition): cannot tell on which inputs the repair runs")
+		return
+	}
+	res.Check(bad == "", rule, construct, instrPos(c.Prog, gate), "the true side always reaches convertAndRepairInvalidUTF8", "an invalid-UTF-8 error can be returned without the repair having been tried ("+bad+"): a condition other than the error class (size, type, count) decides whether a message is repaired")
+}
